@@ -25,12 +25,13 @@ def cst(name, ty, file=I, subst=()):
     return dict(name=name, file=file, regex=r'static constexpr std::%s %s = ([^;]+);' % (ty, name), subst=list(subst))
 
 QT = ['quick', 'thorough']
-def run(id, entry, NB, L, tiers=QT, mode='SEQ', cls='shape-complete', unwindset=(), unwind=None, **kw):
-    d = dict(id=id, entry=entry, tiers=tiers, mode=mode, cls=cls, defs={'NB': NB, 'L': L},
+def run(id, entry, NB, L, CB=0, tiers=QT, mode='SEQ', cls='shape-complete', unwindset=(), unwind=None, **kw):
+    d = dict(id=id, entry=entry, tiers=tiers, mode=mode, cls=cls, defs={'NB': NB, 'L': L, 'CB': CB},
              unwind=unwind if unwind is not None else (3 + L + 2),
              unwindset=['vhm_lock_bucket.0:2', 'vit_move_to_next_bucket.0:2', 'vit_move_to_next_bucket:%d' % (NB + 1)] + list(unwindset))
     d.update(kw)
     return d
+Q = ['quick']; TH = ['thorough']
 
 UNIT = dict(
   title='vyukov_hash_map iterator: find/begin/++/erase(iterator&)/reset/move_to_next_bucket/lock_bucket/move (C11), trivial storage mode',
@@ -142,19 +143,24 @@ UNIT = dict(
          must_fire={'A_STORE': 12, 'A_LOAD': 12, 'call:free_extension_item': 2, 'method:move_to_next_bucket': 2}),
   ],
   runs=[
-    run('lock_bucket', 'h_lock_bucket', 2, 0),
-    run('lock_bucket_int', 'h_lock_bucket_int', 2, 0, mode='INT', cls='unbounded', note='retry loop cut by invariant LOCKB; environment rewrites every bucket the caller does not hold'),
-    run('find', 'h_find', 2, 2, tiers=['quick']), run('find_L3', 'h_find', 2, 3, tiers=['thorough']), run('find_NB1', 'h_find', 1, 2, tiers=['thorough']),
-    run('begin', 'h_begin', 4, 0), run('begin_NB1', 'h_begin', 1, 0, tiers=['thorough']),
-    run('next', 'h_next', 2, 2, tiers=['quick']), run('next_L3', 'h_next', 4, 3, tiers=['thorough']),
-    run('deref', 'h_deref', 2, 2),
-    run('erase', 'h_erase', 2, 2, tiers=['quick'], trace_defs={'XV_TRACE_SMALL': 1}),
-    run('erase_L3', 'h_erase', 4, 3, tiers=['thorough'], trace_defs={'XV_TRACE_SMALL': 1}),
-    run('reset', 'h_reset', 2, 1),
-    run('mnb', 'h_mnb', 3, 0), run('mnb_NB4', 'h_mnb', 4, 0, tiers=['thorough']), run('mnb_NB2', 'h_mnb', 2, 0, tiers=['thorough']), run('mnb_NB1', 'h_mnb', 1, 0),
-    run('mnb_int', 'h_mnb_int', 3, 0, mode='INT', cls='shape-complete', note='lock loop cut by invariant MNB (unbounded retries); recursion over NB buckets unwound'),
+    # NB = buckets in the block, L = extension items available to the bucket under test, CB = index of the bucket under test
+    run('lock_bucket', 'h_lock_bucket', 2, 0, CB=1), run('lock_bucket_b0', 'h_lock_bucket', 2, 0, CB=0, tiers=TH), run('lock_bucket_NB4', 'h_lock_bucket', 4, 0, CB=2, tiers=TH),
+    run('lock_bucket_int', 'h_lock_bucket_int', 2, 0, mode='INT', cls='unbounded', note='retry loop cut by invariant LOCKB; the environment rewrites every bucket the caller does not hold'),
+    run('find', 'h_find', 2, 2, CB=1, tiers=Q), run('find_b0', 'h_find', 2, 2, CB=0, tiers=TH), run('find_L3', 'h_find', 2, 3, CB=1, tiers=TH), run('find_NB1', 'h_find', 1, 2, tiers=TH),
+    run('begin', 'h_begin', 4, 0), run('begin_NB1', 'h_begin', 1, 0, tiers=TH),
+    run('next_b0', 'h_next', 2, 2, CB=0, tiers=Q), run('next_b1', 'h_next', 2, 2, CB=1, tiers=Q),
+    run('next_L3_b0', 'h_next', 3, 3, CB=0, tiers=TH), run('next_L3_b1', 'h_next', 3, 3, CB=1, tiers=TH), run('next_L3_b2', 'h_next', 3, 3, CB=2, tiers=TH),
+    run('deref', 'h_deref', 2, 2, CB=1),
+    run('erase_b0', 'h_erase', 2, 2, CB=0, tiers=Q, trace_defs={'XV_TRACE_SMALL': 1}), run('erase_b1', 'h_erase', 2, 2, CB=1, tiers=Q, trace_defs={'XV_TRACE_SMALL': 1}),
+    run('erase_L3_b0', 'h_erase', 3, 3, CB=0, tiers=TH, trace_defs={'XV_TRACE_SMALL': 1}), run('erase_L3_b1', 'h_erase', 3, 3, CB=1, tiers=TH, trace_defs={'XV_TRACE_SMALL': 1}),
+    run('erase_L3_b2', 'h_erase', 3, 3, CB=2, tiers=TH, trace_defs={'XV_TRACE_SMALL': 1}),
+    run('reset', 'h_reset', 2, 1, CB=1),
+    run('mnb_b0', 'h_mnb', 3, 0, CB=0), run('mnb_b1', 'h_mnb', 3, 0, CB=1), run('mnb_b2', 'h_mnb', 3, 0, CB=2),
+    run('mnb_NB4', 'h_mnb', 4, 0, CB=0, tiers=TH), run('mnb_NB1', 'h_mnb', 1, 0, tiers=TH),
+    run('mnb_int', 'h_mnb_int', 3, 0, CB=0, mode='INT', note='lock loop cut by invariant MNB (unbounded retries); recursion over the NB buckets unwound'),
+    run('mnb_int_b1', 'h_mnb_int', 3, 0, CB=1, mode='INT', tiers=TH),
     run('move_ctor', 'h_move_ctor', 2, 1), run('move_assign', 'h_move_assign', 2, 1),
-    run('traverse', 'h_traverse', 2, 1, tiers=['thorough'], cls='bounded', unwind=12, note='whole begin/++/end traversal, at most 8 elements'),
+    run('traverse', 'h_traverse', 2, 1, tiers=TH, cls='bounded', unwind=12, note='whole begin/++/end traversal, at most 8 elements'),
   ],
   obligations={
     'vhm.it.find.position': dict(deciding=True, text='find(k): for a key present in its bucket (array slot or extension item) the returned iterator satisfies II (bucket locked with state == copy.locked(), index < item_count or *prev == extension with prev != null) and designates that key; for an absent key it equals end() and the bucket is unlocked and unchanged'),
